@@ -105,7 +105,7 @@ func exec(t *testing.T, s Script) *vstat.Violation {
 		}
 		// judge one connection; returns false on violation
 		judge := func(o *connObs) bool {
-			rig.Wait()
+			o.run.AwaitReady()
 			okHS, proto := rig.Snapshot(o.run)
 			closed := func() bool { return o.run.Server.Closes.Load() > 0 }
 			desc := fmt.Sprintf("%s %+v (handshake ok=%v proto=%q)", o.c.Mode, o.c.Plan, okHS, proto)
